@@ -2,6 +2,7 @@
 generation, report parsers for every output route, location helpers."""
 
 import html as htmllib
+import html.parser
 import json
 import re
 import xml.etree.ElementTree as ET
@@ -106,61 +107,128 @@ def parse_xml_report(out):
     return files
 
 
-RE_ROW = re.compile(
-    r'<tr>\n<td style="[^"]*" align="right" valign="top">(\d*)&nbsp;&nbsp;</td>\n'
-    r'<td>(.*?)</td>\n</tr>\n', re.S)
-RE_OVL_ROW = re.compile(
-    r'<tr><td style="[^"]*" align="right" valign="top">(\d+)&nbsp;&nbsp;</td>'
-    r'<td>(.*?)</td></tr>\n', re.S)
-RE_SPAN = re.compile(r'<span style="[^"]*" title="([^"]*)">(?:<a href="[^"]*" '
-                     r'target="_blank">)?(.*?)(?:</a>)?</span>', re.S)
+class Cell:
+    """Content of one table cell: text segments and highlighted spans."""
+
+    def __init__(self):
+        self.segs = []          # ('t', text) | ('s', title, text, span id)
+
+    def add_text(self, text, title=None, span_id=None):
+        last = self.segs[-1] if self.segs else None
+        if title is None:
+            if last and last[0] == 't':
+                self.segs[-1] = ('t', last[1] + text)
+            else:
+                self.segs.append(('t', text))
+        elif last and last[0] == 's' and last[3] == span_id:
+            self.segs[-1] = ('s', title, last[2] + text, span_id)
+        else:
+            self.segs.append(('s', title, text, span_id))
 
 
-def unprotect(s):
-    s = s.replace('<br>\n', '\n')
-    s = s.replace('&ensp;', ' ')
-    return htmllib.unescape(s)
+def cell_text(cell):
+    return ''.join(sg[1] if sg[0] == 't' else sg[2] for sg in cell.segs)
 
 
-def strip_spans(cell):
-    return RE_SPAN.sub(lambda m: m.group(2), cell)
+def cell_spans(cell):
+    """[(title, highlighted text, text of the cell before the span)]"""
+    out = []
+    before = ''
+    for sg in cell.segs:
+        if sg[0] == 't':
+            before += sg[1]
+        else:
+            out.append((sg[1], sg[2], before))
+            before += sg[2]
+    return out
+
+
+def _norm(text):
+    # &ensp; stands for a blank, &nbsp; pads the number column; raw line
+    # breaks of the page source are layout only (<br> is the line break)
+    return text.replace('\u2002', ' ').replace('\n', '').replace('\r', '')
+
+
+class _ReportParser(html.parser.HTMLParser):
+    """Structure of the HTML report, independent of styling: parts introduced
+    by <a id=..></a><h3>File ...</h3>, tables of rows (number cell, text
+    cell), highlighted places as <span title=...>."""
+
+    def __init__(self):
+        super().__init__(convert_charrefs=True)
+        self.parts = []
+        self.cur = None             # current part
+        self.mode = None            # 'rows' | 'overlaps'
+        self.anchor = None
+        self.in_h3 = False
+        self.h3 = ''
+        self.row = None
+        self.cell = None
+        self.span_title = None
+        self.span_id = 0
+
+    def handle_starttag(self, tag, attrs):
+        a = dict(attrs)
+        if tag == 'a' and 'id' in a:
+            self.anchor = a['id']
+        elif tag == 'h3':
+            self.in_h3 = True
+            self.h3 = ''
+        elif tag == 'tr':
+            self.row = []
+        elif tag == 'td' and self.row is not None:
+            self.cell = Cell()
+        elif tag == 'span' and self.cell is not None and 'title' in a:
+            self.span_title = a['title'].replace('\u2002', ' ')
+            self.span_id += 1
+        elif tag == 'br' and self.cell is not None:
+            self.cell.add_text('\n', self.span_title, self.span_id)
+
+    def handle_endtag(self, tag):
+        if tag == 'h3':
+            self.in_h3 = False
+            t = _norm(self.h3)
+            if 'overlapping message(s)' in t and 'found' not in t:
+                self.mode = 'overlaps'
+            elif t.startswith('File ') and self.anchor is not None:
+                n = re.search(r'with (\d+) problem', t)
+                self.cur = {'file': self.anchor, 'title': t,
+                            'nproblems': int(n.group(1)) if n else None,
+                            'rows': [], 'overlaps': []}
+                self.parts.append(self.cur)
+                self.mode = 'rows'
+        elif tag == 'span':
+            self.span_title = None
+        elif tag == 'td' and self.cell is not None and self.row is not None:
+            self.row.append(self.cell)
+            self.cell = None
+        elif tag == 'tr' and self.row is not None:
+            if self.cur is not None and len(self.row) >= 2:
+                num = cell_text(self.row[0]).replace('\xa0', '').strip()
+                n = int(num) if num.isdigit() else None
+                if self.mode == 'overlaps':
+                    if n is not None:
+                        self.cur['overlaps'].append((n, self.row[1]))
+                else:
+                    self.cur['rows'].append((n, self.row[1]))
+            self.row = None
+
+    def handle_data(self, data):
+        if self.in_h3:
+            self.h3 += data
+        elif self.cell is not None:
+            t = _norm(data)
+            if t:
+                self.cell.add_text(t, self.span_title, self.span_id)
 
 
 def parse_html_report(out):
-    """Per file part: {'file', 'rows': [(lineno or None, cell_html)],
-    'overlaps': [(lineno, cell_html)], 'nproblems'}."""
-    parts = []
-    pieces = re.split(r'(?=<a id="[^"]*"></a><H3>File)', out)
-    for piece in pieces[1:]:
-        m = re.match(r'<a id="([^"]*)"></a><H3>(.*?)</H3>\n', piece, re.S)
-        if not m:
-            continue
-        if m.group(2).endswith('overlapping message(s)') or \
-                'overlapping&ensp;message' in m.group(2):
-            # anchor of the overlap table belongs to the previous part
-            if parts:
-                parts[-1]['overlaps'] += [
-                    (int(r.group(1)), r.group(2))
-                    for r in RE_OVL_ROW.finditer(piece)]
-            continue
-        title = unprotect(m.group(2))
-        n = re.search(r'with (\d+) problem', title)
-        part = {'file': m.group(1), 'title': title,
-                'nproblems': int(n.group(1)) if n else None,
-                'rows': [], 'overlaps': []}
-        # main table ends where an overlap anchor or the next part begins
-        body = piece
-        for r in RE_ROW.finditer(body):
-            part['rows'].append((int(r.group(1)) if r.group(1) else None,
-                                 r.group(2)))
-        parts.append(part)
-    return parts
-
-
-def html_spans(cell):
-    """[(title_text, highlighted_text)] of one table cell."""
-    return [(unprotect(m.group(1)), unprotect(m.group(2)))
-            for m in RE_SPAN.finditer(cell)]
+    """Per file part: {'file', 'title', 'nproblems',
+    'rows': [(line number or None, Cell)], 'overlaps': [(line number, Cell)]}"""
+    p = _ReportParser()
+    p.feed(out)
+    p.close()
+    return p.parts
 
 
 # ---------------------------------------------------------------------
@@ -340,11 +408,11 @@ def check_locations_in_file(mode, stdout, texts, names, complete):
                                  % (n, part['file']))
                     continue
                 src = lines[n - 1].replace('\t', ' ' * 8)
-                shown = unprotect(strip_spans(cell))
+                shown = cell_text(cell)
                 if shown != src:
                     probs.append('html: row %d of %s does not show the source '
                                  'line' % (n, part['file']))
-                for title, hl in html_spans(cell):
+                for title, hl, _ in cell_spans(cell):
                     if hl.replace(' ' * 8, '\t') not in lines[n - 1] \
                             and hl not in src:
                         probs.append('html: highlight %r not in line %d'
@@ -359,7 +427,7 @@ def check_locations_in_file(mode, stdout, texts, names, complete):
                 if not 1 <= n <= max(nlines, 1):
                     probs.append('html: overlap row number %d outside %s'
                                  % (n, part['file']))
-                for title, hl in html_spans(cell):
+                for title, hl, _ in cell_spans(cell):
                     if hl and hl not in t.replace('\t', ' ' * 8) \
                             and hl not in t:
                         probs.append('html: overlap highlight %r not in file'
